@@ -133,6 +133,20 @@ func layout(lines []Line, r *rand.Rand) {
 	if len(lines) > 0 && r.Intn(4) == 0 {
 		lines[len(lines)-1].Eol = ""
 	}
+	// inline layout: tags delimit themselves, so a line break is optional after a tag and before a tag
+	// (<a>k=v</a>, <a><b>, </b></a>); chosen for a fifth of the documents, per line with p = 1/2
+	if r.Intn(5) == 0 {
+		for i := range lines {
+			tag := lines[i].T == "open" || lines[i].T == "close"
+			nextTag := i+1 < len(lines) && (lines[i+1].T == "open" || lines[i+1].T == "close")
+			if (tag || nextTag) && r.Intn(2) == 0 {
+				lines[i].Eol = ""
+				if !tag {
+					lines[i].Trail = "" // keep the value's end at the tag
+				}
+			}
+		}
+	}
 }
 
 func body(l Line) string {
